@@ -427,6 +427,12 @@ def real_hang_during_boot(ctx):
     import time
     import lib_realproc as R
     fails = []
+
+    def ask(srv):
+        try:
+            return srv.request("/", timeout=5) if srv.proc.poll() is None else b""
+        except OSError:
+            return b""                               # the master went away under our feet: judged below
     for cls, timeout in ((("sync", 2),) if ctx.quick() else (("sync", 2), ("gthread", 2), ("sync", 3))):
         srv = R.Server(workers=2, worker_class=cls, timeout=timeout, app="hangapp:app")
         marker = os.path.join(srv.dir, "HANG")
@@ -439,12 +445,12 @@ def real_hang_during_boot(ctx):
             open(marker, "w").close()
             os.kill(first[0], sg.SIGTERM)                       # its replacement will hang in the import
             t = srv.wait_for(lambda: "WORKER TIMEOUT" in srv.logtext(), timeout + 8)
-            healthy = srv.request("/", timeout=5) if srv.proc.poll() is None else b""
+            healthy = ask(srv)
             os.unlink(marker)
             ok2 = srv.wait_for(lambda: len(srv.workers()[0]) == 2 and not srv.workers()[1] and first[0] not in srv.workers()[0], timeout + 10)
             time.sleep(0.5)
             alive = srv.proc.poll() is None
-            after = srv.request("/", timeout=5) if alive else b""
+            after = ask(srv)
             ctx.count_case(("real-hang-boot", cls, timeout), True)
             ctx.hist("real_hang_during_boot", "%s t=%d %s" % (cls, timeout, "replaced" if (alive and ok2 is not None) else "NOT replaced"))
             if t is None and alive:
